@@ -1,15 +1,19 @@
 """C05 — noisy targets: the reported estimate is the mean of fresh samples at the returned x."""
-from harness import runlevel as R, skel as S
+from harness import budget as B, runlevel as R, skel as S
 
-PROPS = "Props/C05.v"
-THEOREMS = ["C05_returned_x_is_evaluated_iterate", "C05_last_calls_at_x", "C05_estimate_is_mean_and_sem", "C05_no_resampling_otherwise", "C05_noise_test"]
+PROPS = ["Props/C05.v", "Props/C03budget.v"]
+THEOREMS = ["C05_returned_x_is_evaluated_iterate", "C05_last_calls_at_x", "C05_estimate_is_mean_and_sem", "C05_no_resampling_otherwise", "C05_noise_test",
+            "C05_resampling_spends_the_reserve", "C03_reserve_exact", "C03_noise_level_rule", "C03_budget_model_is_source"]
+TRANSLATORS = ["budget"]
 LEVEL = "proof"
 RULE = ("real runs with stochastic targets (auto-detected, declared homoskedastic, user-specified heteroskedastic; sigma 0.05-1; noise_final_samples 0,1,2,3,10; budgets squeezing the reserve; "
         "log/linear boxes; constraints) + deterministic controls, compared with the skeleton model INCLUDING its final phase (chosen iterate, the tail of the call list, yval_vec, SD vector, "
         "mean/SEM within 1e-9 of the exact rational values, no log row added); non-trivial = the re-sampling branch ran")
 TRUSTED = ["Coq 8.16.1 kernel + vm_compute", "hand-written model Model/Skeleton.v (final_phase) tied to real runs",
            "oracles: the index chosen by the quantile rule (recomputed by the harness with the code's own formula and cross-checked through the returned point), re-estimated fval/fsd, NumPy mean/std (compared with exact rationals at 1e-9 relative: the only float tolerance)",
-           "side condition noisy_u_ok (the end-of-iteration swap keeps the incumbent point) evaluated in Coq on every noisy iteration of every run"]
+           "side condition noisy_u_ok (the end-of-iteration swap keeps the incumbent point) evaluated in Coq on every noisy iteration of every run",
+           "the number of final samples is the RESERVE min(noise_final_samples, max_fun_evals - initial calls) of Model/Budget.v (translate/budget.py regenerates the arithmetic from the source; "
+           "the model is compared with the recorded initialisation of every run of this panel; full account under C03)"]
 ASSUMPTIONS = ["the final re-sampling exists only if at least one poll iteration completed (runs ending in iteration 0 return the incumbent without yval_vec)"]
 
 
@@ -38,6 +42,7 @@ def tie(ctx, broken):
     out = R.tie_skeleton(ctx, broken, [(s, None) for s in specs_for(ctx)], "c05", extra_valid="noisy")
     R.count_runs(ctx, out, lambda tr, P: P is not None and P.get("final_expect", {}).get("sampled"))
     R.apply_monitor(ctx, out, R.mon_c05)
+    B.run_level_tie(ctx, broken, out, "c05")      # level, reserve (= number of final samples), loop budget vs Model/Budget.v
     # noise detection: level after init vs |y0 - y0'| > tol_noise
     bad = []
     for tr, P in out:
